@@ -138,7 +138,7 @@ static RunResult run_fixed(const Plan& plan, Replicas& reps, const std::string& 
         // serialising seeded scheduler (preemption at every field multiplication and callback), each with its own model, stream
         // and oracles. A property oracle that fails here fails "for some interleaving of concurrent callers".
         Plan A, B; split_duo(plan, A, B);
-        RunResult ra, rb; Scheduler sched; { uint64_t hh = hash64(A.to_json()->dump(false)); sched.p_switch_log2 = hh % 3 == 0 ? 62 : (uint32_t) (2 + (hh >> 8) % 11); }   // 62: coarse schedule, preemption only at the callbacks
+        RunResult ra, rb; Scheduler sched; { uint64_t hh = hash64(A.to_json()->dump(false)); sched.p_switch_log2 = hh % 3 == 0 ? 62 : (uint32_t) (2 + (hh >> 8) % 17); }   // 62: coarse schedule, preemption only at the callbacks
         sched.add([&] { ra = execute_plan(A, reps, p.reps[0], p.views[0], verbose, focus, false); });
         sched.add([&] { rb = execute_plan(B, reps, p.reps[0], p.views[0], verbose, focus, false); });
         sched.run(hash64(B.to_json()->dump(false)));
